@@ -710,6 +710,15 @@ impl Oracle for ReuseOracle {
         }
         self.frames.clear();
         self.pending_we = None;
+        if info.kind == "restore" {
+            // memos of functions that are not persisted do not survive a restore
+            for r in self.recs.values_mut() {
+                if !matches!(r.kind, Kind::Plain | Kind::Multi | Kind::Zero | Kind::Ref | Kind::Mk | Kind::OnTs | Kind::OnIt) {
+                    r.alive = false;
+                }
+            }
+            out.bump("restore_seen_by_reuse_oracle");
+        }
         if self.modes.lru {
             if let Some(c) = info.lru_cap {
                 self.lru.cap = c;
